@@ -306,13 +306,13 @@ def run(chk):
                     if not k2.startswith('unversioned:'): continue
                     _, shape, wrap, ac = k2.split(':')
                     if ('2.1', 'observables', s['name']) in registered: continue          # (a 2.1 observable of the same name: content with an id and no spec_version is read as that observable -- the library's documented rule)
-                    is_reg = (shape, 'objects', s['name']) in registered
+                    is_reg = (shape, 'objects', s['name']) in registered or (shape, 'observables', s['name']) in registered      # (the same name registered as an observable of that version: built as that version's class)
                     built = not (str(r).startswith('ERR') or r == 'builtins.dict')
                     if built and ('.v20.' in r or r.startswith('stix2.v20')) != (shape == '2.0') and 'stix2.v2' in r:
                         return ('scope#registration is version-scoped', f'{names}: after {s}, {shape}-shaped content of {s["name"]} parsed without a version ({wrap}, allow_custom={ac}) is built as {r}', {})
                     if built and not is_reg:
                         return ('scope#registration is version-scoped', f'{names}: after {s}, {shape}-shaped content of {s["name"]} (not registered for {shape}) parsed without a version ({wrap}, allow_custom={ac}) is built as {r}', {})
-                    if is_reg and not built and wrap == 'bare':
+                    if (shape, 'objects', s['name']) in registered and not built and wrap == 'bare':
                         return ('exact#registered name parses to the class', f'{names}: after {s}, {shape}-shaped content of {s["name"]} parsed without a version (allow_custom={ac}) gives {r}', {})
         return None
     def scen_check(case):
